@@ -16,8 +16,8 @@ THEOREMS = [
     "Typedpy.C09.default_site_faithful",
     "Typedpy.C09.description_safe",
     "Typedpy.C09.description_site_faithful",
-    "Typedpy.C09.unescaped_description_nul",
-    "Typedpy.C09.description_statement_false",
+    "Typedpy.C09.fixed_description_nul",
+    "Typedpy.C09.description_statement_holds",
     "Typedpy.C09.defaultsSites_faithful",
     "Typedpy.C09.all_sites_faithful",
     "Typedpy.C09.all_sites_faithfulL",
@@ -46,9 +46,23 @@ THEOREMS = [
     "Typedpy.C09.emitted_module_accepted_partial",
     "Typedpy.C09.exOra_ok",
     "Typedpy.C09.counterexample_name_not_identifier",
-    "Typedpy.C09.counterexample_description_nul",
+    "Typedpy.C09.fixed_description_nul_module",
     "Typedpy.C09.always_compiles_statement_false",
     "Typedpy.C09.accepted_example",
+    "Typedpy.C09.counterexample_extra_key_dropped",
+    "Typedpy.C09.counterexample_unique_bool_vs_int",
+    "Typedpy.C09.counterexample_cyclic_refs",
+    "Typedpy.C09.exported_schema_is_source",
+    "Typedpy.C09.admitted_is_accepted_partial",
+    "Typedpy.C09.counterexample_bool_as_number",
+    "Typedpy.C09.counterexample_bool_string",
+    "Typedpy.C09.counterexample_short_positional_array",
+    "Typedpy.C09.counterexample_null_optional",
+    "Typedpy.C09.exactness_statement_false",
+    "Typedpy.C09.admitted_is_accepted_example",
+    "Typedpy.C09.emitted_module_clean",
+    "Typedpy.C09.definitions_defined_before_use",
+    "Typedpy.C09.counterexample_dict_order_forward_ref",
 ]
 RULE = ("schemas from a recursive generator over the keyword set (type, properties, required, additionalProperties, "
         "items as schema/list, uniqueItems, additionalItems, min/max*, multiplesOf, pattern, enum, allOf/anyOf/oneOf/not, "
@@ -59,20 +73,28 @@ RULE = ("schemas from a recursive generator over the keyword set (type, properti
         "definition-to-definition); string payloads for pattern / enum / "
         "default / description drawn from plain + hostile pieces (quotes, backslashes, escape-looking sequences, raw "
         "newline / CR / tab, triple quotes, non-ASCII incl. non-printable) with hostile probability 0/0.1/0.3; a fixed "
-        "list of the known-finding schemas; through schema_to_struct_code + schema_definitions_to_code or "
+        "list of the known-finding schemas, of names that are not Python names and of annotation keywords whose text would be "
+        "class-body code; annotation keywords (description / title / $comment / examples) at every sub-schema and on definitions with "
+        "plain / hostile payloads (line breaks + indented statements, quotes, '#'); with p_odd property / definition names that are not "
+        "identifiers (keywords, hyphens, digits first, __debug__, '#', '.', line break); through schema_to_struct_code + schema_definitions_to_code or "
         "write_code_from_schema (temp file under work/); per executable class up to 60 boundary documents, one property "
-        "varied at a time around a validator-accepted base document; non-trivial = has pattern/enum/default/$ref/"
+        "varied at a time around a validator-accepted base document; per case 4 mutants of the generated source (token deleted / "
+        "duplicated / swapped, quote flipped, indentation changed, line break removed or inserted) for the recogniser-vs-compile tie; "
+        "non-trivial = has pattern/enum/default/$ref/"
         "description or > 120 chars, distinct by sha256 of the case")
 ASSUMPTIONS = [
-    "partial: whether the whole emitted module compiles is decided by CPython's parser at run time; the model carries the lexing of the string literals only",
-    "lexer model: \\N{name} escapes and escapes denoting lone surrogates are not modelled (generators avoid them); str.isprintable for non-ASCII characters is an oracle supplied per case",
-    "property names are identifiers that are not Python keywords and do not start with an underscore",
-    "numeric keywords: integers and dyadic floats (exact in decimal); multiplesOf is a positive int",
-    "schemas are in typedpy's dialect (multiplesOf, not:[...]); the independent validator sees the two-rule dialect fix",
-    "additionalItems on an array whose items is a single schema or absent has no counterpart in the model's declarations (no runtime effect): the Lean round-trip theorems abstract from it, the executed round-trip oracle compares it literally (true and false); " 
-    "comparison of schemas is up to key order, required order and draft-4 default-valued keywords (exclusiveMaximum/uniqueItems false, additionalItems true, absent additionalProperties = true); description is compared through __doc__",
-    "uniqueItems documents: for every uniqueItems array (directly, as array items, map values or nested-object properties, wrapped <= 2 deep; also after a positional prefix) element pairs that are JSON-equal but spelled differently (int vs float in nested arrays/objects, permuted object keys), JSON-different but Python-equal (true vs 1), identical and genuinely different; the draft-4 verdict decides; uniqueItems over Structure elements ($ref / properties) stays excluded", 
-    "exact sub-fragment additionally excludes: defaults, unanchored patterns, enum members that are bool-like or equal across types (True == 1 == 1.0), multiplesOf on number, wrapped (non-object) top-level schemas, allOf/anyOf/oneOf/not over object / map / $ref members (deserialization of structured options is C06); document domain: deviations on null, bool-for-number, 'True'/'False' strings, short positional arrays and undeclared keys are keyed phenomena (known findings exact:*)",
+    "recogniser (Sem/PyGram.lean): a hand-written model of CPython's tokenizer / parser for the emitted subset, three-valued; 'unknown' (no claim) for other operators and keywords, tabs, backslash continuations, string prefixes, \'\'\' literals, escapes the literal model does not decide, non-ASCII characters that are not identifier characters; bracket nesting above 200 is rejected (CPython's MAXLEVEL)",
+    "oracles supplied per case: str.isprintable and str.isidentifier on non-ASCII characters, repr(float) (checked by the driver to be a decimal literal); the acceptance theorem is relative to these oracles (identOk X)",
+    "lexer model of string literals: \\N{name} escapes and escapes denoting lone surrogates are not modelled (generators avoid them)",
+    "property names in the proved region are identifiers that are not Python keywords, not __debug__, not name-mangled (__x) and do not start with an underscore; other names are generated on purpose and keyed compile:/exec:/roundtrip:name-not-identifier",
+    "numeric keywords: integers and dyadic floats (exact in decimal); float-valued bounds are not integral; multiplesOf is a positive int",
+    "schemas are in typedpy's dialect (multiplesOf, not:[...], minItems/maxItems on objects read, minProperties/maxProperties written); the independent validator sees the two-rule dialect fix",
+    "the model's AST normalises draft-4 default-valued keywords (exclusiveMaximum / uniqueItems false, additionalItems true, additionalProperties true) and ignores annotation keywords and defaults below property level: the text comparison runs the real generator on the canonical form (canon_schema, the Python mirror of Schema.ofJson)",
+    "additionalItems on an array whose items is a single schema or absent has no counterpart in the model's declarations (no runtime effect): the Lean round-trip theorems abstract from it, the executed round-trip oracle compares it literally (true and false); "
+    "comparison of schemas is up to key order, required order, annotation keywords and draft-4 default-valued keywords; description is compared through __doc__",
+    "uniqueItems documents: for every uniqueItems array (directly, as array items, map values or nested-object properties, wrapped <= 2 deep; also after a positional prefix) element pairs that are JSON-equal but spelled differently (int vs float in nested arrays/objects, permuted object keys), JSON-different but Python-equal (true vs 1), identical and genuinely different; the draft-4 verdict decides; uniqueItems over Structure elements ($ref / properties) stays excluded",
+    "exact sub-fragment of the executed oracle additionally excludes: defaults, unanchored patterns, enum members that are bool-like or equal across types (True == 1 == 1.0), multiplesOf on number, wrapped (non-object) top-level schemas, allOf/anyOf/oneOf/not over object / map / $ref members (deserialization of structured options is C06); document domain: deviations on null, bool-for-number, 'True'/'False' strings, short positional arrays and undeclared keys are keyed phenomena (known findings exact:*)",
+    "where the source of the generator moved from the pinned tree (extract/srcpins.py) a text difference alone is not an alarm",
 ]
 
 
